@@ -13,7 +13,9 @@ from c03_gen import generate_cases
 
 c03_blocks.register(c03_multi.Multi())
 c03_blocks.register(c03_multi.NetMulti())
+c03_blocks.register(c03_multi.CNN3d())
 c03_gen.GENERATORS.append(c03_multi.gen_multi)
+c03_gen.GENERATORS.append(c03_multi.gen_cnn3d)
 
 
 class C03(vlib.Driver):
